@@ -317,6 +317,10 @@ class MenuConfigState:
         if self.kconf.missing_syms:
             return True
 
+        if not os.path.exists(self.conf_filename):
+            # Nothing on disk yet: saving creates the file, even if it only consists of the header
+            return True
+
         for sym in self.kconf.unique_defined_syms:
             if sym._sdkconfig_value is None:
                 if sym.config_string:
